@@ -132,13 +132,14 @@ VARIABLES
   leftover,      \* leftover[x]: octets the client had received on that connection and not consumed at completion
   unseen,        \* unseen[x]: octets the server had sent and that had not yet reached the client at completion
   stalled,       \* stalled[x]: the client waited for octets beyond everything the server had to send
+  fresh,         \* fresh[x]: request x went out on a connection opened for it (not on a kept one)
   reqRecs, respRecs,   \* number of WARC request / response records written for exchange x
   reqBlock, respBlock, \* their blocks (last one written)
   linked,        \* linked[x]: the response record names the request record of x as concurrent, both carry x's URL
   warcDone       \* the WARC file has been read back (monitor) / records are written synchronously (model)
 
 obsvars == <<delivered, recorded, reqRecorded, reqSent, outcome, connClosed, leftover, unseen, stalled,
-             reqRecs, respRecs, reqBlock, respBlock, linked>>
+             reqRecs, respRecs, reqBlock, respBlock, linked, fresh>>
 
 Done(x) == outcome[x] # "none"
 Ok(x)   == outcome[x] = "ok"
@@ -165,7 +166,10 @@ NoOverRead    == \A x \in XS : (Clean(x) /\ stalled[x]) => ref[x].framing = "clo
 \* after a success on a kept connection no received octet is left unconsumed: the next response is parsed
 \* from its first byte; surplus bytes go away with the connection.  (Lenient reading: octets still in
 \* flight when the response completes cannot be known to the client; PersistStrict counts them too.)
-Persist       == \A x \in XS : (Clean(x) /\ Ok(x) /\ ~connClosed[x]) => leftover[x] = 0
+\* (What counts is that such octets are never READ as a later response: a kept connection that still holds some
+\* must not carry the next request - fresh[x + 1]: exchange x + 1 went out on a connection opened for it.)
+Persist       == \A x \in XS : (Clean(x) /\ Ok(x) /\ ~connClosed[x] /\ leftover[x] > 0)
+                                   => (x + 1 \in XS /\ Done(x + 1) => fresh[x + 1])
 PersistStrict == \A x \in XS : (Ok(x) /\ ~connClosed[x]) => (leftover[x] = 0 /\ unseen[x] = 0)
 NoHang        == \A x \in XS : outcome[x] # "hang"
 
